@@ -33,7 +33,8 @@ FAIL, SEEN = [], {"pairs": 0, "triples": 0, "fields": 0}
 def variants():
     """(description for the model, constructor) of table variants"""
     names = ["t", "u", "T"]
-    schemas = [None, "s", ["db", "s"], Q.Schema("s"), Q.Schema("s", parent=Q.Schema("db")), Q.Database("db").s, "S"]
+    # (a name that CONTAINS a dot is one name: "db.s" is not the schema s of database db)
+    schemas = [None, "s", ["db", "s"], Q.Schema("s"), Q.Schema("s", parent=Q.Schema("db")), Q.Database("db").s, "S", "db.s", Q.Schema("db.s")]
     aliases = [None, "a", "t", ""]
     out = []
     for n, s, al in itertools.product(names, schemas, aliases):
@@ -163,7 +164,8 @@ def cases(run, rng):
         if not f1 == f2 or hash(f1) != hash(f2):
             FAIL.append({"kind": "for_() changes identity (== or hash)", "a": d})
     # schemas, aliased queries, builders
-    S = [Q.Schema("s"), Q.Schema("s"), Q.Schema("s", parent=Q.Schema("db")), Q.Database("db").s, Q.Schema("t")]
+    S = [Q.Schema("s"), Q.Schema("s"), Q.Schema("s", parent=Q.Schema("db")), Q.Database("db").s, Q.Schema("t"), Q.Schema("db.s"), Q.Schema("s", parent=Q.Schema("x.db")),
+         Q.Schema("s", parent=Q.Schema("db", parent=Q.Schema("x"))), Q.Schema("db.s", parent=Q.Schema("x")), Q.Schema("")]
     AQ = [Q.AliasedQuery("c"), Q.AliasedQuery("c").as_("x"), Q.Cte("c", P.Query.from_("t").select("a")), Q.AliasedQuery("d"), Q.AliasedQuery("d", P.Query.from_("t").select("a")),
           # the same name around different things: an aliased sub-query, a table, another class's query
           Q.Cte("c", P.Query.from_("t").select("a").as_("x")), Q.AliasedQuery("c", P.Table("t")), Q.Cte("c", PostgreSQLQuery.from_("u").select("b").as_("y")),
@@ -202,7 +204,9 @@ def cases(run, rng):
                     pass
             # same-named columns of different tables, in both operand orders
             fa, fb, fc = T.Field("a", table=t), T.Field("a", table=u), T.Field("a", table=v)
-            exprs += [("same-name:t-u", fa == fb), ("same-name:u-t", fb == fa), ("same-name:sum", fa + fb + fc), ("same-name:between", fa.between(fb, fc)),
+            exprs += [("in-container-field", fa.isin(fb)), ("in-container-function", fc.isin(fn.Coalesce(fb, fa))), ("notin-container-arith", fa.notin(fb + fc)),
+                      ("in-container-under-not", ~(fa.isin(T.Function("unnest", fc)) & (fb == 1))),
+                      ("same-name:t-u", fa == fb), ("same-name:u-t", fb == fa), ("same-name:sum", fa + fb + fc), ("same-name:between", fa.between(fb, fc)),
                       ("same-name:in", fc.isin([fb, fa])), ("same-name:case", P.Case().when(fa == 1, fb).else_(fc)), ("same-name:func", fn.Coalesce(fb, fc, fa))]
             for sn, e in exprs:
                 if not hasattr(e, "fields_"):
